@@ -7,7 +7,9 @@ gen_cases(seed, tier) -> rows ['LEX', id, escaped_text]; ids start with the stre
   p…  every ordered pair of operator spellings (and a few other token spellings), adjacent and separated by a space
   r…  random longer strings (5–60 chars) mixing tokens of all kinds
 
-usage: lexgen.py [--tier quick|thorough] [--seed N]... [--show]
+usage: lexgen.py [--tier quick|thorough] [--seed N]... [--hbin PATH] [--oracle]
+       --hbin: harness binary to use (default /verif/harness/target/debug/gharness)
+       --oracle: instead of comparing with the model, check the C13 oracle on the implementation's results
        runs both binaries on the cases of every seed and prints case counts, disagreements and the first 20 of them."""
 import itertools, os, random, sys, time
 HERE = os.path.dirname(os.path.abspath(__file__))
@@ -191,18 +193,103 @@ def gen_cases(seed, tier):
     return cases
 
 
+# ------------------------------------------------------------------ direct oracle for property C13 (implementation side only)
+
+FOREIGN = set('€\\\0\x01\x7f😀→\x1b\x0b\x1c\x85\u00a0\u2003\u0301')
+LITERALS = {'CharList', 'ByteList', 'LineAnnotation'}
+
+
+def pos_of(prefix):
+    i = prefix.rfind('\n')
+    return prefix.count('\n'), len(prefix) - (i + 1)
+
+
+def parse_tokens(result):
+    toks = []
+    for f in result.split('\t')[1:]:
+        ty, row, col, text = f.split(',', 3)
+        toks.append((ty, int(row), int(col), vlib.unesc(text)))
+    return toks
+
+
+def oracle(text, result):
+    """list of C13 violation classes of the implementation's result on `text` ([] = fine)"""
+    if not result.startswith('ok'):
+        return [] if result == 'err' else ['crash:' + result.split(' ')[0]]
+    toks = parse_tokens(result)
+    bad = []
+    if ''.join(t[3] for t in toks) != text:
+        bad.append('concat')
+    if any(t[3] == '' for t in toks):
+        bad.append('empty-token')
+    if bad:
+        return bad
+    off = 0
+    spans = []
+    for ty, row, col, tx in toks:
+        if '\r' not in text and '\x0c' not in text and (row, col) != pos_of(text[:off]):
+            bad.append('position')
+        if '\x0c' in text and '\r' not in text and (row, col) != pos_of(text[:off]):
+            bad.append('position-formfeed')
+        if ty not in LITERALS and any(c in FOREIGN for c in tx):
+            bad.append('foreign-char-in-' + ty)
+        spans.append((off, off + len(tx), ty))
+        off += len(tx)
+    # blank line: a run of spaces/tabs/newlines made only of Whitespace/Subexpression tokens with >= 2 newlines
+    i = 0
+    while i < len(spans):
+        if spans[i][2] in ('Whitespace', 'Subexpression'):
+            j = i
+            while j < len(spans) and spans[j][2] in ('Whitespace', 'Subexpression'):
+                j += 1
+            run = text[spans[i][0]:spans[j - 1][1]]
+            if '\r' not in run and '\x0c' not in run and run.count('\n') >= 2 and all(sp[2] != 'Subexpression' for sp in spans[i:j]):
+                bad.append('blank-line-not-subexpression')
+            i = j
+        else:
+            i += 1
+    return sorted(set(bad))
+
+
+def run_oracle(seeds, tier):
+    classes = {}
+    total = 0
+    for seed in seeds:
+        cases = gen_cases(seed, tier)
+        impl = vlib.run_impl(cases, f'lexo{seed}')
+        total += len(cases)
+        for c in cases:
+            text = vlib.unesc(c[2])
+            for k in oracle(text, impl.get(c[1]) or 'crash:None'):
+                e = classes.setdefault(k, [0, None])
+                e[0] += 1
+                if e[1] is None or len(text) < len(e[1][0]):
+                    e[1] = (text, impl.get(c[1]))
+    print(f'oracle: {total} cases, violation classes: {len(classes)}')
+    for k, (n, (text, res)) in sorted(classes.items()):
+        print(f'  {k}: {n} cases; shortest: {vlib.esc(text)!r} -> {res}')
+    return classes
+
+
 def main():
     tier = 'quick'
     seeds = []
     a = sys.argv[1:]
     i = 0
+    do_oracle = False
     while i < len(a):
         if a[i] == '--tier':
             tier = a[i + 1]; i += 1
         elif a[i] == '--seed':
             seeds.append(int(a[i + 1])); i += 1
+        elif a[i] == '--hbin':
+            vlib.HBIN = a[i + 1]; i += 1
+        elif a[i] == '--oracle':
+            do_oracle = True
         i += 1
     seeds = seeds or [0]
+    if do_oracle:
+        sys.exit(1 if run_oracle(seeds, tier) else 0)
     total = 0
     bad = []
     counts = {}
